@@ -59,7 +59,8 @@ def run(ctx):
     # must be the rendering of the shape inferred from the FULL sources; if it is not, the serde oracle below
     # judges the text compile_json really produced
     e2e = list(range(min(len(cases), 24)))
-    cl = ["compile\t%s\t%s%s" % (hexs("e2e"), hexs("out"), "".join("\tT" + hexs(t) for t in cases[i][0])) for i in e2e]
+    # (every other case keeps its sources under ONE base name in different directories)
+    cl = ["compile\t%s\t%s%s" % (hexs("e2e"), hexs("out"), "".join("\t" + "TS"[i % 2] + hexs(t) for t in cases[i][0])) for i in e2e]
     sc = ctx.corr_scopes.setdefault("compile_json(real files) returns render(shape inferred from the full sources)", {"cases": 0, "disagreements": 0})
     mi = list(mi)
     for i, l, r in zip(e2e, cl, ctx.impl(cl)):
